@@ -23,7 +23,8 @@ themes = {1: 'any realistic break', 2: 'the less obvious corners', 3: 'CONJUNCTI
           8: 'regressions of the 25 repairs (a variant of a repaired defect: a neighbouring path, a guard that no longer holds, a simplification of the fix) and the edges of the process (start-up, shutdown, status socket, logging set-up)',
           9: 'the less-travelled corners of the configuration space (IPv6 and mixed-family tunnels, AH, RSA, lifetime -1, several connections) and numeric boundaries',
           10: 'defects that hide in Python semantics (aliasing and in-place mutation, class-level state, truthiness of 0 / empty values, identity versus equality, exceptions raised inside handlers, signed struct formats, int constructors)',
-          11: 'breaks that need TWO INDEPENDENT ADVERSE EVENTS in one history, or a legal event arriving in a RARE STATE, and roll-back / clean-up code that runs only then'}
+          11: 'breaks that need TWO INDEPENDENT ADVERSE EVENTS in one history, or a legal event arriving in a RARE STATE, and roll-back / clean-up code that runs only then',
+          12: 'TIME and the order of work inside one loop turn (deadlines computed from the wrong base, several deadlines due in one turn, a process that was suspended for minutes, events served in the turn in which a deadline expires, counters and jitter that drift)'}
 head = f"""## 6. Seeded property-breaking changes and which checks catch them
 
 {n} changes, {2 * len(rounds)} per property in {len(rounds)} rounds, each written by a fresh sub-agent that saw only the property text and a scratch worktree of /repo
